@@ -4,7 +4,10 @@ open Pylx
 /-- every model file contributes one handler; the first that recognises the operation answers -/
 def handlers : List (List String → Option String) := [
   handleLine,
-  handleTok
+  handleTok,
+  handleParse,
+  handleVisit,
+  handleEnc
 ]
 
 def handle (fields : List String) : String :=
